@@ -39,6 +39,23 @@ HOSTS = [A, B, A2, A3, O]
 SECRET = "000102030405060708090a0b0c0d0e0f101112131415161718191a1b1c1d1e1f"
 
 
+KINDS = ["cr", "ca", "cn", "tr", "ta", "cj", "pj", "er", "ep", "pap", "chap", "ip", "i6", "v6", "unk"]
+MACS = ["020000aa0001", "020000bb0002"]
+SVS = [0, 100, 101]      # 0 = untagged
+CVS = [0, 10, 11]        # 0 = single-tagged
+BASES = [(m, s_, c_) for m in MACS for s_ in SVS for c_ in CVS]
+
+
+def neighbours(t):
+    """the same host with exactly one field changed, in every direction (0 <-> non-zero for each VLAN, one MAC byte)"""
+    m, s_, c_ = t
+    out = [(m, s2, c_) for s2 in SVS + [s_ + 1] if s2 != s_]
+    out += [(m, s_, c2) for c2 in CVS + [c_ + 1] if c2 != c_]
+    for i in (0, 3, 5):
+        out.append((m[:2 * i] + "%02x" % (int(m[2 * i:2 * i + 2], 16) ^ 0x10) + m[2 * i + 2:], s_, c_))
+    return out
+
+
 def route(case):
     return "int" if case.startswith("tb") else "pkg"
 
@@ -163,7 +180,15 @@ def gen_tb_one(rng, ttl=60, scale=None):
             occ = "%d-%d" % (start + 1, start + rng.randint(1, 4))
     ops = []
     sids = [start, start % 65535 + 1, (start + 1) % 65535 + 1, (start + 2) % 65535 + 1, 1, 2, 7, 8, 0, 65535]
-    hosts = [A, B, A2, A3] + ([O] if rng.random() < 0.3 else [])
+    grp = "100-199"
+    if rng.random() < 0.5:
+        hosts = [A, B, A2, A3] + ([O] if rng.random() < 0.3 else [])
+    else:
+        base = rng.choice(BASES)
+        nb = neighbours(base)
+        rng.shuffle(nb)
+        hosts = [base, base] + nb[:rng.randint(2, 5)] + ([O] if rng.random() < 0.2 else [])
+        grp = "0-199"
     if rng.random() < 0.25:
         used = set()
         if occ != "-":
@@ -207,12 +232,37 @@ def gen_tb_one(rng, ttl=60, scale=None):
         elif r < 0.65:
             ops.append("T/%s/%d" % (tup(h), rng.choice(sids)))
         elif r < 0.92:
-            ops.append("S/%s/%d/%s" % (tup(h), rng.choice(sids), rng.choice(["cr", "cr", "tr"])))
+            ops.append("S/%s/%d/%s" % (tup(h), rng.choice(sids), rng.choice(["cr", "cr", "tr"] + KINDS)))
         else:
             ops.append("D/%d" % rng.choice(sids))
     if rng.random() < 0.08:
         ops.append("C/%d/%d" % (rng.randint(2, 12), rng.choice([100, 101])))
-    return "tb %s %d G=100-199 occ=%s next=%s ; %s" % (SECRET, ttl, occ, nxt, " ".join(ops))
+    return "tb %s %d G=%s occ=%s next=%s ; %s" % (SECRET, ttl, grp, occ, nxt, " ".join(ops))
+
+
+def gen_directed():
+    """for every base tuple: its session is addressed by every one-field neighbour with a PADT and with every
+    session-stage packet kind; after each foreign PADT the owner's own frame must still reach the session"""
+    cases = []
+    for b in BASES:
+        ops = ["R/%s/%s" % (tup(b), ck_valid(b))]
+        for n in neighbours(b):
+            ops.append("T/%s/1" % tup(n))
+            ops.append("S/%s/1/er" % tup(b))
+            for k in KINDS:
+                ops.append("S/%s/1/%s" % (tup(n), k))
+        ops.append("S/%s/1/cr" % tup(b))
+        ops.append("T/%s/1" % tup(b))
+        cases.append("tb %s 60 G=0-199 occ=- next=- ; %s" % (SECRET, " ".join(ops)))
+        # the neighbour has a session of its own as well (ids 1 and 2): each side quotes the other's id
+        for n in neighbours(b)[:8]:
+            ops = ["R/%s/%s" % (tup(b), ck_valid(b)), "R/%s/%s" % (tup(n), ck_valid(n))]
+            for k in ("cr", "tr", "er", "pap"):
+                ops += ["S/%s/1/%s" % (tup(n), k), "S/%s/2/%s" % (tup(b), k)]
+            ops += ["T/%s/1" % tup(n), "T/%s/2" % tup(b), "S/%s/1/cr" % tup(b), "S/%s/2/cr" % tup(n),
+                    "T/%s/2" % tup(n), "T/%s/1" % tup(b)]
+            cases.append("tb %s 60 G=0-199 occ=- next=- ; %s" % (SECRET, " ".join(ops)))
+    return cases
 
 
 FULLSCALE = [
@@ -234,6 +284,7 @@ def gen_cases(rng, tier, budget):
     n = (budget or 700) if tier == "quick" else (budget or 12000)
     for _ in range(n):
         cases.append(gen_tb_one(rng, ttl=rng.choice([60, 60, 60, 5])))
+    cases += gen_directed()
     cases += FULLSCALE
     if tier == "thorough":
         cases += THOROUGH_FULLSCALE
